@@ -36,7 +36,7 @@ TRUSTED = ['harness/corr/c09.py extractor + correspondence (symbolic subclassing
            'float time stamps: ts + max_time_diff modelled in exact arithmetic',
            'T3 is over an arbitrary field with abstract norm/cos/sin/atan2/tan satisfying TrigLaws; binary64 rounding is not modelled']
 ASSUMPTIONS = ['PARTIAL: convergence/accuracy of the numerics (the 1 mm / 1 mrad claim) is TESTED on generated rooms, not proved',
-               'known findings: D92 (mirror vote pollution, ~2-5% of rooms miss the tolerance), D93 (IPPE NaN when a deck axis is perpendicular to the line of sight, ~2-3% of square rooms; fix proposed); D91 fixed in /repo',
+               'known finding: D92 (mirror vote pollution, ~2-5% of rooms miss the tolerance); D91 (eig->eigh) and D93 (IPPE NaN when a deck axis is perpendicular to the line of sight) are fixed in /repo: their witnesses stay in the corpus and a recurrence is a VIOLATION',
                'for an empty sample list only the API-level ValueError of solve() is compared']
 RULE = ('cases = measurement streams (all streams of <=4/5 measurements over gaps {0,d,d+1} x 2 ids x min_bs, random bursty streams), '
         'co-visibility hypergraphs (chains, stars, islands, dense, degenerate; real rooms behind the real IPPE stage), solver set-ups '
